@@ -163,6 +163,8 @@ def events(s):
         if p.get("exited"):
             last = max([hi(a) for a in p["anchors"]] + [p["launched"]])
             ev.append((max(p["exited"], last + 1e-6), p["i"], "exit", max(p["exited"], last + 1e-6), True))
+    for t in s.get("saves", []):
+        ev.append((t, -1, "save", t, True))
     ev.sort()
     return ev
 
@@ -214,6 +216,9 @@ def schedule(order, nprocs):
     items = []
     done = set()
     for (_, i, act, _hi, ok) in order:
+        if act == "save":     # the DAG definition was saved (label Save of the model)
+            items.append((3, 0))
+            continue
         if act == "exit":     # the process is gone: whatever remained of its program has happened
             items.append((2, i))
             done.add(i)
@@ -373,9 +378,10 @@ def agent_race(ctx, cases):
     if not cases:
         return
     fate = {"none": 1, "step": 1, "running": 2, "socket": 3}
-    items = [(0, 0)] * 5 + [(0, 1)] * 2 + [(0, 0)] * 6 + [(0, 1)] * 2 + [(0, 2)] * 4 + [(2, 0)]
     txt_cases = []
     for c in cases:
+        save = [(3, 0)] if c["sub"] == "save" else []   # the definition saved (real DAGStore.UpdateSpec) while A is inside its section
+        items = [(0, 0)] * 5 + save + [(0, 1)] * 2 + [(0, 0)] * 6 + [(0, 1)] * 2 + [(0, 2)] * 4 + [(2, 0)]
         runs = [c] + c.get("others", [])
         obs = [(fate.get(o["err_kind"], 0), len(o["exec"]) > 0, "open" in o["log"]) for o in runs]
         txt_cases.append(coq_case(items, len(runs), obs))
@@ -391,8 +397,9 @@ def agent_race(ctx, cases):
         runs = [c] + c.get("others", [])
         others = runs[1:]
         what = None
-        if any(o["exec"] for o in others):
-            what = "two agents of one DAG file executed steps at the same time (A held after its probe, B started inside the window)"
+        if c.get("both_active") or any(o["exec"] for o in others):
+            what = ("two agents of one DAG file executed steps at the same time (A held inside its locked section%s, B started meanwhile; "
+                    "B waited for the lock: %s)" % (", the definition saved through DAGStore.UpdateSpec" if c["sub"] == "save" else "", c.get("b_waited")))
         elif any(o["err_kind"] != "running" or [x for x in o["log"] if x != "probe"] for o in others):
             what = "a start issued while A was inside its probe-and-bind section / active was not refused silently: %s" % [
                 (o["err_kind"], o["log"]) for o in others]
@@ -401,7 +408,7 @@ def agent_race(ctx, cases):
         elif c["err_kind"] != "none" or len(c["hist_files"]) != 1:
             what = "A did not complete normally: %r, history %s" % (c["err"], c["hist_files"])
         if what:
-            ctx.fail("monitor", "in-process: " + what, c, cls={"class": "agent-race"})
+            ctx.fail("monitor", "in-process: " + what, c, cls={"class": "agent-race", "sub": c["sub"]})
     for (k, code) in bad:
         ctx.fail("correspondence", "in-process race: the protocol model does not predict the agents' fates (code %d; B waited for the lock: %s)"
                  % (code, cases[k].get("b_waited")), cases[k], cls={"class": "model-agent-race"})
